@@ -15,7 +15,7 @@ THEOREMS = ["constants_consistent", "sha256_is_256_bit", "convert_is_identity", 
             "sort_sorted", "sort_perm", "sort_prefix", "sort_returns_n_nearest", "sort_by_address_is_by_key", "sort_error_iff",
             "returns_requested_number_or_error_refuted", "returns_requested_number_or_error_outside_known",
             "known_short_list_exact", "close_peers_client_spec", "close_peers_node_spec", "store_farthest_invariant",
-            "store_admission_exact", "store_admits_not_farther", "store_history_agreement_sound", "closest_k_spec",
+            "store_admission_exact", "store_admits_not_farther", "store_history_agreement_sound", "x_closest_chunks_spec", "x_closest_chunks_take_then_filter_refuted", "closest_k_spec",
             "closest_k_insertion_order_irrelevant", "range_filter_exact", "fetcher_range_filter_exact",
             "fetcher_order_closest_first", "fetch_schedule_closest_first", "fetch_acceptor_is_spec",
             "fetch_history_agreement_sound", "farthest_on_full_exact", "fullness_bound_invariant", "store_distance_index_exact", "closest_peers_spec",
@@ -23,6 +23,8 @@ THEOREMS = ["constants_consistent", "sha256_is_256_bit", "convert_is_identity", 
 RULE = ("addresses of all six kinds (peer bytes incl. non-PeerId byte strings, chunk, register, scratchpad, "
         "transaction, raw record key) and the record-key form of each; peers are sha2-256 and identity multihash "
         "PeerIds incl. duplicates, 0-40 per case with boundary sizes 0,1,4,5,6; requested counts 0..|peers|+2; "
+        "storage-challenge answers (GetChunkExistenceProof via Node::handle_query, difficulty 1-7) over 0-30 held records of mixed "
+        "kinds (all chunks / non-chunks at ranks 2 and 4 / random kinds / the nearest few all non-chunks); "
         "get_closest_k_value_local_peers over real routing tables of 0-60 peers inserted in random order (k-buckets shared by "
         "many, more than K_VALUE-1 peers); admission / eviction histories of a real NodeRecordStore with capacity 2-8: settled "
         "puts of new keys, re-puts of the current farthest record and of other held records (same bytes: read-cache early "
@@ -278,6 +280,32 @@ def gen(ctx, binary):
         t = {"t": "self"} if (with_self and rng.random() < 0.45) else typed()
         cases.append({"op": "close_peers", "self_seed": rb(rng, 32).hex(), "client": rng.random() < 0.7,
                       "found": found, "a": t})
+    # storage-challenge answers (GetChunkExistenceProof through Node::handle_query): stores of mixed record kinds
+    # around the target, difficulty 1..7
+    for i in range(60 * scale):
+        t = typed(rng.choice(["chunk", "peerid", "key", "tx"]))
+        ht = H(abytes(t))
+        n = rng.choice([0, 1, 2, 4, 6, 9, 14, 30])
+        keys = sorted({rb(rng, 32).hex() for _ in range(n)}, key=lambda k: ht ^ H(bytes.fromhex(k)))
+        mode = i % 4
+        recs = []
+        for j, k in enumerate(keys):
+            if mode == 0:
+                tag = 0
+            elif mode == 1:
+                tag = rng.choice([1, 5, 9]) if j in (1, 3) else 0          # non-chunks among the nearest
+            elif mode == 2:
+                tag = rng.choice([0, 0, 1, 5])
+            else:
+                tag = rng.choice([1, 5]) if j < rng.choice([1, 2, 4, 6]) else 0   # the nearest ones are all non-chunks
+            recs.append([k, tag])
+        rng.shuffle(recs)
+        diff = rng.choice([1, 2, 2, 3, 4, 5, 5, 6, 7])
+        a = t
+        if diff == 1 and keys and rng.random() < 0.6:
+            a = {"t": "key", "b": rng.choice(keys)}
+        cases.append({"op": "chunk_proofs", "self_seed": rb(rng, 32).hex(), "a": a, "difficulty": diff,
+                      "nonce": rng.getrandbits(40), "records": recs})
     # get_closest_k_value_local_peers over a real routing table: 2..60 peers inserted in random order (about half of
     # them share the farthest k-bucket, a quarter the next one, ...), more than K_VALUE-1 of them in some cases
     for i in range(40 * scale):
@@ -640,6 +668,26 @@ def oracle(c, o):
         else:
             v.append(("unexpected-error", str(o.get("err"))))
         return v
+    if op == "chunk_proofs":
+        check_bytes(c, c["a"], o["abytes"], v)
+        ht = H(bytes.fromhex(o["abytes"]))
+        held = {k: t for k, t in c["records"]}
+        got = [x[1] for x in o["l"]]
+        if c["difficulty"] == 1:
+            # existence check of the target itself
+            if got != [o["abytes"]] or o["l"][0][2] != (o["abytes"] in held):
+                v.append(("chunk-proofs", "difficulty 1: answer is not the target's own record (held: %s)" % (o["abytes"] in held)))
+            return v
+        chunks = stable_closest([k for k, t in c["records"] if t == 0], lambda k: ht ^ H(bytes.fromhex(k)))
+        want = chunks[:min(c["difficulty"], CGS)]
+        if got != want:
+            v.append(("chunk-proofs", "difficulty %d, %d chunks among %d records held: %d proofs returned, expected the %d "
+                      "nearest chunks in ascending XOR distance%s" % (
+                          c["difficulty"], len(chunks), len(held), len(got), len(want),
+                          "" if set(got) <= set(want) else " (a returned record is not among them)")))
+        elif any(x[0] != "key" or not x[2] or not x[3] for x in o["l"]):
+            v.append(("chunk-proofs", "a returned proof does not verify"))
+        return v
     if op == "closest_k":
         me = o["self"]
         hs = H(bytes.fromhex(me))
@@ -899,6 +947,12 @@ def model_term(c, o):
         if op == "sort_addr":
             return "agree_sort_addr %s %s %s %s %s" % (S, cpeers(c["peers"]), caddr(c["a"], o["abytes"]), cN(c["n"]), res)
         return "agree_sort_key %s %s %s %s %s" % (S, cpeers(c["peers"]), cbytes(c["pre"]), cN(c["n"]), res)
+    if op == "chunk_proofs":
+        if c["difficulty"] == 1:
+            return None
+        recs = clist(["(%s, %s)" % (cbytes(k), cN(t)) for k, t in c["records"]])
+        return "agree_chunk_proofs %s %s %s %s %s" % (S, caddr(c["a"], o["abytes"]), cN(c["difficulty"]), recs,
+                                                     cpeers([x[1] for x in o["l"]]))
     if op == "closest_k":
         return "agree_closest_k %s %s %s %s" % (S, cbytes(o["self"]), cpeers(o["inserted"]), cpeers(o["closest_k"]))
     if op == "store_hist":
@@ -1010,6 +1064,9 @@ def show(c, o):
         return "sort_peers_by_address %s %s %s %s" % (S, cpeers(c["peers"]), caddr(c["a"], o["abytes"]), cN(c["n"]))
     if op == "sort_key":
         return "sort_peers_by_key %s %s (%s %s) %s" % (S, cpeers(c["peers"]), S, cbytes(c["pre"]), cN(c["n"]))
+    if op == "chunk_proofs":
+        recs = clist(["(%s, %s)" % (cbytes(k), cN(t)) for k, t in c["records"]])
+        return "x_closest_chunks %s %s %s %s" % (S, caddr(c["a"], o["abytes"]), cN(c["difficulty"]), recs)
     if op == "closest_k":
         return "closest_k_value_local_peers %s %s %s %s" % (S, cbytes(o["self"]), cN(K_VALUE), cpeers(o["inserted"]))
     if op == "store_hist":
@@ -1052,6 +1109,9 @@ def nontrivial(c, o):
     if op in ("sort_addr", "sort_key"):
         n, k = c["n"], len(c["peers"])
         return (op, o["code"], size_class(k), (n > k) - (n < k), min(n, 8), c.get("a", {}).get("t"))
+    if op == "chunk_proofs":
+        nonchunk_near = sum(1 for k, t in c["records"] if t != 0)
+        return (op, c["difficulty"], min(len(c["records"]), 10), len(o.get("l", [])), min(nonchunk_near, 4), c["a"]["t"])
     if op == "closest_k":
         return (op, len(o["inserted"]), len(o["closest_k"]))
     if op == "store_hist":
